@@ -2,7 +2,7 @@
 C19/Model.v, and the property itself (WHATWG event-stream interpretation of the implementation's bytes)."""
 import itertools
 
-from . import core
+from . import core, util
 
 PID = "C19"
 MANIFEST = dict(text="Theorem stream_decodes_to_prefix composes this with C06: in every reachable state of the WSGI and ASGI event-stream transition systems (every schedule, every close/disconnect point) the bytes handed to the server decode to exactly the events 0..d-1 the producer yielded, in order, pings invisible. "
@@ -15,7 +15,11 @@ MANIFEST = dict(text="Theorem stream_decodes_to_prefix composes this with C06: i
              "build_bytes_from_sse on every key subset x every data text up to length 3 (thorough 4-5) over the 15 critical "
              "characters, key orders, sequences with pings; the ping chunk and the headers are read from live WSGI and ASGI "
              "SendEventResponse objects; the Coq parser is compared with an independent Python transcription of the standard on "
-             "generated streams. The encoder as it was before the repair (str.splitlines) is modelled too and refuted.",
+             "generated streams. The encoder as it was before the repair (str.splitlines) is modelled too and refuted. "
+             "announced_charset: the headers of a response built with charset cs carry exactly one Content-Type and it announces cs; "
+             "one response object constructed with each of seven charsets answers 1-3 requests through its WSGI / ASGI interface "
+             "(optionally after a request the client closed early), each stream is read back with the charset the headers ANNOUNCE "
+             "and must be the whole stream (a response object has no memory of earlier requests: found the defect 058410f).",
         note="Modelled, not verified: str.encode/bytes.decode UTF-8 round trip (theorems are over code points; the harness "
              "decodes the real bytes as UTF-8), re.split, dict insertion order, str(int). The WHATWG algorithm is a "
              "hand transcription, validated against a second, independent Python transcription. The timing that interleaves "
@@ -28,7 +32,10 @@ RULE = ("cases: (a) data-only and all-keys events x every data text of length <=
         "{CR,LF,VT,FF,U+1C,U+1D,U+1E,U+85,U+2028,U+2029,space,':','a','e-acute',U+1F600} (exhaustive), every subset of "
         "{data,event,id,retry} x every data text of length <=2, (b) all 24 key orders, varied names/ids/retries, (c) random longer "
         "texts, (d) events outside the hypotheses (multi-line name/id, NUL id, negative retry: correspondence only), (e) sequences "
-        "of events and pings, (f) live SendEventResponse objects on both interfaces (ping chunk, body, headers), (g) arbitrary "
+        "of events and pings, (f) live SendEventResponse objects on both interfaces (ping chunk, body, headers); one response object "
+        "constructed with a charset (utf-8, latin-1, cp1252, iso-8859-15, cp1251, gb18030, shift_jis) answering 1-3 requests through "
+        "its WSGI / ASGI interface, optionally after a request the client closed early: per request the stream read back with the "
+        "charset the Content-Type ANNOUNCES, and the headers sent, (g) arbitrary "
         "streams through the Coq parser and the Python reference parser (token sequences exhaustive to length 4/5, random longer), "
         "(h) the pre-repair encoder (model of str.splitlines) against the interpreter's str.splitlines. "
         "non-trivial = an event whose data is empty or contains a separator/space/colon or that has >=2 keys; a sequence with >=2 "
@@ -193,6 +200,26 @@ def cases(tier, rng, level=None):
         for _ in range(10 if level == 0 else 150):
             items = [rng.choice(live_items) if rng.random() < 0.5 else rand_event(rng, 6) for _ in range(rng.randrange(1, 7))]
             yield "live", ["live", iface, items]
+    # (f2) one response object, constructed with a charset, answering several requests through its gateway interface
+    # (a response object is a WSGI / ASGI application; the routers mount such objects): every request gets the whole
+    # stream, and the headers announce the charset the bytes are written in — the stream is read back with the
+    # ANNOUNCED charset (seeds C19-11, C19-12).  early=1: a request that the client closes after the first chunk
+    # comes before the observed ones
+    two = [mk(("data",), "one"), mk(("id", "data"), "two\n", id_="i2")]
+    for iface in ("wsgi", "asgi"):
+        for n, early in ((1, 0), (2, 0), (3, 0), (1, 1), (2, 1)):
+            yield "live-charset-history", ["livecs", iface, "utf-8", n, two, early]
+            yield "live-charset-history", ["livecs", iface, "utf-8", n, [mk(("data",), "\u00e9 \u2028")], early]
+        yield "live-charset-history", ["livecs", iface, "utf-8", 2, [], 0]
+        for cs, samples in CHARSET_TEXTS:
+            for n, early in ((1, 0), (2, 0), (2, 1)):
+                yield "live-charset-history", ["livecs", iface, cs, n, [mk(("event", "id", "data"), "a\r\n " + samples[0], samples[-1], samples[0]),
+                                                                        mk(("data",), samples[-1])], early]
+        for _ in range(6 if level == 0 else 80):
+            cs, samples = rng.choice(CHARSET_TEXTS)
+            items = [mk(("data", "id"), rng.choice(samples) + rng.choice(["", "\n", " x"]), id_=rng.choice(samples)) if rng.random() < 0.6
+                     else rng.choice(live_items) for _ in range(rng.randrange(1, 4))]
+            yield "live-charset-history", ["livecs", iface, cs, rng.randrange(1, 4), items, rng.randrange(0, 2)]
     # (g) arbitrary streams: Coq transcription of the standard vs the Python transcription
     for n in range((4 if level == 0 else 5) + 1):
         for t in itertools.product(STREAM_TOKENS, repeat=n):
@@ -311,6 +338,102 @@ def live(iface, events):
     return pings, [c for c in rest if c not in pings], headers
 
 
+class _Again:
+    """an iterable whose every iteration starts a fresh stream of the same events (sync and async)"""
+
+    def __init__(self, events):
+        self.events = events
+
+    def __iter__(self):
+        for e in self.events:
+            yield to_event(e)
+
+    async def __aiter__(self):
+        for e in self.events:
+            yield to_event(e)
+
+
+def _announced(headers):
+    """the charset parameter of the Content-Type that was sent (utf-8 when there is none: what an EventSource assumes)"""
+    for k, v in headers:
+        if k == "content-type":
+            for p in v.split(";")[1:]:
+                a, _, b = p.strip().partition("=")
+                if a.lower() == "charset":
+                    return b.strip()
+    return "utf-8"
+
+
+def _read_back(chunks, headers):
+    raw = b"".join(c for c in chunks if c != b": ping\n\n")
+    cs = _announced(headers)
+    try:
+        return raw.decode(cs)
+    except (UnicodeDecodeError, LookupError) as e:
+        return "<not decodable with the announced charset %s: %s>" % (cs, type(e).__name__)
+
+
+def live_charset(iface, charset, n, events, early):
+    """one response object answers (early: a request closed after its first chunk, then) n requests; per observed
+    request [text read back with the announced charset, headers sent]"""
+    out = []
+    if iface == "wsgi":
+        from baize.wsgi.responses import SendEventResponse
+        r = SendEventResponse(_Again(events), ping_interval=5, charset=charset)
+        for k in range(early + n):
+            starts = []
+            it = r(util.wsgi_environ(), lambda status, headers, exc_info=None: starts.append((status, list(headers))))
+            chunks = []
+            try:
+                for c in it:
+                    chunks.append(c)
+                    if k < early:
+                        break
+            finally:
+                if hasattr(it, "close"):
+                    it.close()
+            if k >= early:
+                headers = sorted([a.lower(), b] for a, b in (starts[-1][1] if starts else []))
+                out.append([_read_back(chunks, headers), headers])
+    else:
+        import asyncio
+        from baize.asgi.responses import SendEventResponse
+
+        async def one(r, close_early):
+            sent = []
+            gone = asyncio.Event()
+            first = [True]
+
+            async def receive():
+                if first[0]:
+                    first[0] = False
+                    return {"type": "http.request", "body": b"", "more_body": False}
+                await gone.wait()
+                return {"type": "http.disconnect"}
+
+            async def send(m):
+                sent.append(m)
+                if close_early and m["type"] == "http.response.body" and m.get("body"):
+                    gone.set()
+
+            await asyncio.wait_for(r(util.http_scope(), receive, send), 20)
+            return sent
+
+        async def main():
+            r = SendEventResponse(_Again(events), ping_interval=5, charset=charset)
+            res = []
+            for k in range(early + n):
+                sent = await one(r, k < early)
+                if k >= early:
+                    start = [m for m in sent if m["type"] == "http.response.start"]
+                    headers = sorted([a.decode("latin-1").lower(), b.decode("latin-1")] for a, b in (start[0].get("headers", []) if start else []))
+                    res.append([_read_back([m.get("body", b"") for m in sent if m["type"] == "http.response.body"], headers), headers])
+            return res
+
+        out = asyncio.run(main())
+    return out
+
+
 _PING = []
 
 
@@ -352,6 +475,8 @@ def impl(case):
             b = build_bytes_from_sse(to_event(case[2]), case[1])
         elif op == "seq":
             b = b"".join(observed_ping() if it == "ping" else build_bytes_from_sse(to_event(it), "utf-8") for it in case[1])
+        elif op == "livecs":
+            return live_charset(case[1], case[2], case[3], [it for it in case[4] if it != "ping"], case[5])
         elif op == "live":
             pings, chunks, headers = live(case[1], [it for it in case[2] if it != "ping"])
             return [[p.decode("utf-8") for p in pings], b"".join(chunks).decode("utf-8"), headers]
@@ -468,6 +593,23 @@ def oracle(case, obs):
         if not all(it == "ping" or in_hypotheses(it) for it in case[1]):
             return None
         return compare_blocks("sequence %r" % (case[1],), visible(ref_parse(obs[0])), visible(expected_blocks(case[1])))
+    if op == "livecs":
+        iface, cs, n, items = case[1], case[2], case[3], [it for it in case[4] if it != "ping"]
+        if len(obs) != n:
+            return ("requests-unanswered", "%d requests on one %s response object, %d answers" % (n, iface, len(obs)))
+        for k, o in enumerate(obs):
+            text, headers = o
+            h = dict((a, b) for a, b in headers)
+            ct = [x.strip() for x in h.get("content-type", "").split(";")]
+            if ct[0].lower() != "text/event-stream" or len(ct) != 2 or not ct[1].lower().startswith("charset="):
+                return ("content-type", "Content-Type is %r: text/event-stream with exactly one charset parameter expected" % h.get("content-type"))
+            if all(in_hypotheses(it) for it in items):
+                v = compare_blocks("%s response object built with charset=%s, request %d of %d%s, stream of %r read back with the announced %s"
+                                   % (iface, cs, k + 1, n, " (after a request closed early)" if case[5] else "", items, ct[1]),
+                                   visible(ref_parse(text)), visible(expected_blocks(items)))
+                if v:
+                    return ("live-" + v[0], v[1])
+        return None
     if op == "live":
         pings, text, headers = obs
         if len(pings) != 1:
@@ -497,7 +639,7 @@ def nontrivial(case, obs):
     op = case[0]
     if op == "parse":
         return any(b[4] for b in obs[0])
-    if op == "live":
+    if op in ("live", "livecs"):
         return True
     if op == "seq":
         return len(case[1]) >= 2
@@ -542,6 +684,18 @@ def shrink(case):
         items = case[2]
         for i in range(len(items)):
             yield ["live", case[1], items[:i] + items[i + 1:]]
+    elif op == "livecs":
+        items = case[4]
+        for i in range(len(items)):
+            yield case[:4] + [items[:i] + items[i + 1:], case[5]]
+        if case[3] > 1:
+            yield case[:3] + [case[3] - 1] + case[4:]
+        if case[5]:
+            yield case[:5] + [0]
+        for i, it in enumerate(items):
+            if it != "ping":
+                for f in shrink_fields(it):
+                    yield case[:4] + [items[:i] + [f] + items[i + 1:], case[5]]
     elif op == "parse":
         s = case[1]
         for i in range(len(s)):
